@@ -123,9 +123,9 @@ package app
 //@   assigns p.started, closed(p.procStartedChan), loggerOpen(p.logger)
 
 //@ func (p *Process) stopProbes
-//@   assigns health.Prober.stopped[*]
+//@   assigns abool(p.liveProber.stopped), abool(p.readyProber.stopped)
 //@ func (p *Process) startProbes
-//@   assigns health.Prober.stopped[*]
+//@   assigns abool(p.liveProber.stopped), abool(p.readyProber.stopped), spawned[*]
 
 //@ func (p *Process) notifyDaemonStopped
 //@   assigns slept(), lastWait()
@@ -157,7 +157,7 @@ package app
 //@   ensures started-released: closed(p.procStartedChan) || cancelled(p.procRunCtx)
 //@   ensures nocause: okCancels() == old(okCancels())
 //@   ensures unlocked(p)
-//@   assigns p.done, p.waitForStoppedFn, p.procState.Status, p.procState.ExitCode, p.procState.Health, health.Prober.stopped[*], loggerOpen(p.logger),
+//@   assigns p.done, p.waitForStoppedFn, p.procState.Status, p.procState.ExitCode, p.procState.Health, abool(p.liveProber.stopped), abool(p.readyProber.stopped), loggerOpen(p.logger),
 //@           p.procState.SystemTime, p.procState.Age, p.procState.Name, p.procState.Mem, p.procState.CPU, p.procState.IsRunning, p.procState.IsElevated, p.procState.PasswordProvided,
 //@           cancelled[*], causeOk[*], okCancels()
 
@@ -206,6 +206,7 @@ package app
 //@   let st0 = p.procState.Status
 //@   let sp = p.procConf.ShutDownParams
 //@   ensures runctx: cancelled(p.procRunCtx)
+//@   ensures keepstopflag: abool(p.isStopped) == old(abool(p.isStopped))
 //@   ensures notrunning: !isRunningState(st0) ==> stops() == old(stops()) && runs() == old(runs()) && result == nil
 //@   ensures pending: st0 == "Pending" ==> p.done && p.procState.Status == "Terminating"
 //@   ensures terminating: isRunningState(st0) ==> p.procState.Status == "Terminating" && p.procState.Health == "-"
@@ -219,7 +220,7 @@ package app
 
 //@ func (p *Process) shutDown
 //@   requires procWF(p) && unlocked(p)
-//@   ensures cancelled(p.procRunCtx) && unlocked(p)
+//@   ensures cancelled(p.procRunCtx) && unlocked(p) && abool(p.isStopped) == old(abool(p.isStopped))
 //@ func (p *Process) internalStop
 //@   requires procWF(p) && unlocked(p)
 //@   ensures cancelled(p.procRunCtx) && unlocked(p)
@@ -239,7 +240,7 @@ package app
 //@ define attachedIo(p *Process) bool = p.isMain || (p.procConf.IsElevated && !p.isTuiEnabled)
 
 //@ func (p *Process) getProcessStarter$1
-//@   ensures one-start: starts() == old(starts()) + 1 && startAfterWait(old(starts())) == lastWait()
+//@   ensures one-start: starts() == old(starts()) + 1 && startAfterWait(old(starts())) == lastWait() && lastWait() == old(lastWait())
 //@   ensures env: cmdEnv(p.command) == lastProcEnv() && cmdDir(p.command) == p.procConf.WorkingDir
 //@   ensures pgrp: !attachedIo(p) ==> pgrpSet(p.command)
 //@   ensures streams: !attachedIo(p) ==> p.stdOutDone != nil && (!p.procConf.IsTty ==> p.stdErrDone != nil)
@@ -253,7 +254,7 @@ package app
 //@   requires !held(p.stateMtx) && !held(p.confMtx)
 //@   requires starter: isclosure(runnable, "(*app.Process).getProcessStarter$1") && captured(runnable, "(*app.Process).getProcessStarter$1", "p") == p
 //@   param runnable as (*app.Process).getProcessStarter$1
-//@   ensures launched: starts() == old(starts()) + 1 && startAfterWait(old(starts())) == lastWait()
+//@   ensures launched: starts() == old(starts()) + 1 && startAfterWait(old(starts())) == lastWait() && lastWait() == old(lastWait())
 //@   ensures status: p.procState.Status == state
 //@   ensures forget: (state == "Restarting" || state == "Launching" || state == "Terminating") ==> p.procState.Health == "-"
 //@   ensures keepexit: state != "Skipped" ==> p.procState.ExitCode == old(p.procState.ExitCode)
